@@ -54,6 +54,8 @@ def walk(w, rnd, profile, steps, opts):
     def do(line):
         br.observe(line); return line
     do(w.build(a))
+    if opts.get("wrap"):
+        do(w.pokeid(rnd.randint(65528, 65535)))
     for h in ("onDisconnection", "onPublish", "onMqttConnectionMade"):
         if rnd.random() < 0.8:
             do(w.set(a, h, 1))
@@ -80,7 +82,7 @@ def walk(w, rnd, profile, steps, opts):
             choices += [("connack", 6), ("connack_bad", 1)]
         choices += [("publish", 5 if st != "IdleState" else 1), ("subscribe", 2 if st == "ConnectedState" else 0.3),
                     ("unsubscribe", 1.5 if st == "ConnectedState" else 0.3), ("set", 1.2), ("fire", 2.5), ("idle", 0.5),
-                    ("lost", 0.6), ("disconnect", 0.25), ("connect", 0.2)]
+                    ("lost", 0.6), ("disconnect", 0.25), ("connect", 0.2), ("pokeid", 0.5 if opts.get("wrap") else 0)]
         if st == "ConnectedState" and tr in ("open", "closing"):
             choices += [("ack", 7), ("inbound", 3 if profile != "pub" else 0.3), ("pingresp", 0.7), ("stray", 0.7)]
         tot = sum(c[1] for c in choices); x = rnd.random() * tot
@@ -151,6 +153,8 @@ def walk(w, rnd, profile, steps, opts):
             do(w.lost(a, rnd.choice(["done", "lost"])))
         elif name == "disconnect":
             do(w.disconnect(a))
+        elif name == "pokeid":
+            do(w.pokeid(rnd.randint(65528, 65535)))
         elif name == "ack":
             kinds = []
             if br.seen["PUBLISH1"]: kinds.append("PUBACK")
@@ -207,7 +211,7 @@ def main():
     for tid in range(1, n + 1):
         prof = rnd.choice(["pub", "sub", "both", "both"])
         w = W.World(prof, len(idx[prof]) + 1, files[prof])
-        opts = {"maxgen": 3, "clean": rnd.choice([0.0, 0.5, 1.0])}
+        opts = {"maxgen": 3, "clean": rnd.choice([0.0, 0.5, 1.0]), "wrap": fam == "wrap" or (fam == "mixed" and rnd.random() < 0.25)}
         try:
             walk(w, rnd, prof, rnd.randint(8, 45), opts)
         except Exception as e:
